@@ -192,7 +192,7 @@ func genC19(r *Rng, tier string) []Case {
 		// one CBOR program with every kind of item (each write call of the encoder fails in turn)
 		{
 			items := []Sx{it("u", Zu(0)), it("o", Bool(true)), it("u", Zu(1000)), it("i", Zi(-5)), it("o", Bool(false)), it("b", B(r.Bytes(3))),
-				it("t", B([]byte("text"))), it("a", Zi(2)), it("o", Bool(r.Bool())), it("u", Zu(1 << 40)), randMap(r, 1, 3), it("o", Bool(true))}
+				it("t", B([]byte("text"))), it("a", Zi(2)), it("o", Bool(r.Bool())), it("u", Zu(1<<40)), randMap(r, 1, 3), it("o", Bool(true))}
 			if res := opCborProg(items); res.L[0].IsSym("ok") {
 				emit("cbor", items, len(res.L[1].B), []string{"plain"})
 			}
